@@ -60,6 +60,32 @@ def rule_yaml(r):
     return render.dump_yaml(doc), xm
 
 
+def apalache(report):
+    import shutil
+    import subprocess
+    import time
+    from ..common import SPEC
+    out = os.path.join(scratch(), "apalache")
+    steps = [("Init => IndInv", ["--init=Init", "--inv=IndInv", "--length=0"]),
+             ("IndInv /\\ Next => IndInv'", ["--init=IndInit", "--inv=IndInv", "--length=1"]),
+             ("IndInv => C14", ["--init=IndInit", "--inv=C14", "--length=0"])]
+    res = []
+    for name, args in steps:
+        t0 = time.time()
+        try:
+            p = subprocess.run(["apalache-mc", "check", *args, f"--out-dir={out}", "Apa_C14.tla"], cwd=SPEC,
+                               capture_output=True, text=True, timeout=600)
+        except (OSError, subprocess.TimeoutExpired) as exc:
+            res.append({"obligation": name, "result": f"not run: {exc}"})
+            continue
+        ok = "EXITCODE: OK" in p.stdout
+        if not ok and "The outcome is: Error" in p.stdout:
+            raise MachineryError(f"Apalache refutes `{name}`: the specification of C14 is inconsistent\n{p.stdout[-1500:]}")
+        res.append({"obligation": name, "result": "discharged" if ok else "tool error", "wall_s": round(time.time() - t0, 1)})
+    shutil.rmtree(out, ignore_errors=True)
+    report.cov["apalache_inductive_invariant"] = res
+
+
 def run(prop, tier):
     report = Report(prop, tier)
     max_ops = 3 if tier == "quick" else 4
@@ -79,6 +105,9 @@ def run(prop, tier):
     if not ctl["violated"]:
         raise MachineryError("non-vacuity control MC_C14_control did not fail")
     tlc.cleanup(ctl)
+    # 1b. unbounded histories: the inductive core of C14 discharged symbolically by Apalache (extra evidence;
+    #     the claim of this check rests on TLC + trace validation)
+    apalache(report)
     # 2. universe
     out = os.path.join(scratch(), "u14.json")
     ex = tlc.run("Export_C14", cfg="Export_C14.cfg", env={"JASM_OUT": out}, workers=1)
